@@ -198,3 +198,49 @@ func ZZC19K4() {
 	want := "error: [IMM01] m\n  |\n1 | " + t + "\n  | " + strings.Repeat(" ", d-1) + "^\n  |\n   = help: " + zzDocURL("IMM01") + "\n"
 	nd.Assert(got == want, "long line: excerpt and caret use the original line and column")
 }
+
+// C19-K5: history independence. One Reporter renders two diagnostics on the same over-long line (columns from all three
+// truncation regimes and their boundaries); the second message must be what a fresh Reporter produces for it.
+func ZZC19History() {
+	line := strings.Repeat("abcdefghij", 50) // 500 bytes
+	content := "short\n" + line + "\nlast\n"
+	c1 := nd.Int("col1")
+	c2 := nd.Int("col2")
+	cols := []int{1, 150, 197, 198, 199, 250, 303, 304, 400, 500, 501}
+	ok1, ok2 := false, false
+	for _, c := range cols {
+		ok1 = nd.Or(ok1, c1 == c)
+		ok2 = nd.Or(ok2, c2 == c)
+	}
+	nd.Assume(ok1)
+	nd.Assume(ok2)
+	// pin the columns (one path per pair): the caret loops then run on concrete bounds
+	c1 = nd.Pin(c1)
+	c2 = nd.Pin(c2)
+	l2 := nd.Int("line2") // the second diagnostic is on the long line or on a neighbour (long line shown as context)
+	nd.Assume(2 <= l2)
+	nd.Assume(l2 <= 3)
+	l2 = nd.Pin(l2)
+	render := func(r *Reporter, pass *analysis.Pass, out *string, ln, col int) string {
+		fset, pos := nd.FsetFor("f.go", content, ln, col)
+		pass.Fset = fset
+		*out = ""
+		r.ReportViolation(zzViolation{code: "IMM01", msg: "m", pos: pos})
+		return *out
+	}
+	mk := func(out *string) (*Reporter, *analysis.Pass) {
+		pass := &analysis.Pass{
+			ReadFile: func(name string) ([]byte, error) { return []byte(content), nil },
+			Report:   func(d analysis.Diagnostic) { *out = d.Message },
+		}
+		return NewReporter(pass, nil), pass
+	}
+	var o1, o2 string
+	shared, sharedPass := mk(&o1)
+	render(shared, sharedPass, &o1, 2, c1)
+	col2 := nd.IteInt(l2 == 2, c2, 1)
+	second := render(shared, sharedPass, &o1, l2, col2)
+	fresh, freshPass := mk(&o2)
+	want := render(fresh, freshPass, &o2, l2, col2)
+	nd.Assert(second == want, "a message does not depend on what the same Reporter rendered before")
+}
